@@ -31,6 +31,23 @@ def run(ctx):
             marks = [{"kind": "init"}, {"kind": "mktree", "tree": tree}, {"kind": "snap"}, {"kind": "walk"},
                      {"kind": "backup", "plan": steps[4]["plan"], "tree": tree, "snap_at": 2}, {"kind": "arch"}]
             cases.append({"id": f"f{t}_{k}", "steps": steps, "marks": marks})
+    # the source changes while it is being backed up: a file shrinks after its directory was listed and stat-ed
+    for t in range(12 if quick else 150):
+        tree = {"k": "d", "mode": 0o755, "mtime": 10**18, "c": {}}
+        names_ = ["a", "b", "c", "d", "e"]
+        for i, nm in enumerate(names_):
+            tree["c"][nm] = {"k": "f", "data": gen.rand_bytes(ctx.rng, ctx.rng.choice([6, 10, 24, 40])).hex(), "mode": 0o644, "mtime": 10**18 + i}
+        victim = ctx.rng.choice(names_[1:])
+        after = "/" + ctx.rng.choice(names_[:names_.index(victim)])
+        full = len(tree["c"][victim]["data"]) // 2
+        newlen = ctx.rng.randrange(1, full)
+        opts = {"meph": ctx.rng.choice([2, 3, 100000]), "mbs": ctx.rng.choice([8, 30, 1000]), "sfc": ctx.rng.choice([0, 16, 1000]),
+                "mutate": [{"after": after, "path": victim, "len": newlen}]}
+        steps = [{"op": "init"}, {"op": "mktree", "path": "src", "tree": tree}, {"op": "snap", "path": "src"}, {"op": "walk"},
+                 {"op": "backup", "opts": opts}, {"op": "arch"}]
+        marks = [{"kind": "init"}, {"kind": "mktree", "tree": tree}, {"kind": "snap"}, {"kind": "walk"},
+                 {"kind": "backup", "plan": None, "tree": tree, "snap_at": 2}, {"kind": "arch"}]
+        cases.append({"id": f"m{t}", "steps": steps, "marks": marks, "mutating": True})
     res = ctx.cvh_run(cases, timeout=3000)
     hs = []
     for c in cases:
@@ -70,6 +87,9 @@ def run(ctx):
         names = l4.Names()
         scen.collect_names(names, c["steps"], r)
         h = l4.History(c["id"], names)
+        if c.get("mutating"):
+            h.check_premises = False       # SrcWF (bytes read = stat size) is exactly what such a run does not satisfy
+            ctx.dist("source_shrinks_during_backup")
         scen.add_model_history(h, c["steps"], c["marks"], r, names)
         hs.append(h)
     out = l4.evaluate(ctx, "C13", hs, shards=8 if quick else 16)
